@@ -969,6 +969,54 @@ Theorem C03_pacman_chk_model_partial : forall cf k cs m,
 Proof. intros cf k cs m H1 H2. apply prun_snap_inv. split; assumption. Qed.
 Print Assumptions C03_pacman_chk_model_partial.
 
+(* the step_count clauses (2612 / 2613) at the level of the simulation's own transitions, for every
+   configuration, state and action dictionary (Proofs/PacmanCount_proofs.v): reset sets step_count to 0
+   and the rewards to 0; a step that raised nothing either adds exactly one, or leaves step_count alone and
+   then pacman is inactive in the resulting state (an overlap loop killed it and returned early); when the
+   step counted, the last overlap loop ran to its end on pacman's cell and left pacman's record alone.
+   (Still not proved: the converse "counted => pacman still active", which needs pacman's vitals framed
+   through the baddies' moves and teleports; and the shared-cell clause 2611.) *)
+From Abm Require Import Proofs.PacmanCount_proofs.
+Theorem C03_pacman_reset_count : forall f cf st,
+  ps_count (sim_reset (pacman_sim_gen f cf) st) = 0 /\
+  ps_rew (sim_reset (pacman_sim_gen f cf) st) = repeat 0 (length (pc_kinds cf)).
+Proof. intros f cf st. split; [exact (pm_reset_count cf st) | exact (pm_reset_rewards cf st)]. Qed.
+Print Assumptions C03_pacman_reset_count.
+
+Theorem C03_pacman_step_count : forall f cf st acts,
+  ps_bad st = false -> ps_bad (sim_step (pacman_sim_gen f cf) st acts) = false ->
+  ps_count (sim_step (pacman_sim_gen f cf) st acts) = ps_count st + 1 \/
+  (ps_count (sim_step (pacman_sim_gen f cf) st acts) = ps_count st /\
+   pac_active cf (ps_grid (sim_step (pacman_sim_gen f cf) st acts)) = false).
+Proof. exact pacman_sim_step_count. Qed.
+Print Assumptions C03_pacman_step_count.
+
+Theorem C03_pacman_step_count_any : forall f cf st acts,
+  ps_count (pm_step_gen f cf st acts) = ps_count st \/
+  ps_count (pm_step_gen f cf st acts) = ps_count st + 1.
+Proof. exact pm_step_count_cases. Qed.
+Print Assumptions C03_pacman_step_count_any.
+
+Theorem C03_pacman_counted_last_loop_frame : forall f cf st acts,
+  ps_bad st = false -> ps_bad (pm_step_gen f cf st acts) = false ->
+  ps_count (pm_step_gen f cf st acts) = ps_count st + 1 ->
+  exists g4 p' r3,
+    overlap_loop cf false (cell_get (g_cells g4) p') g4 r3
+      = LGo (ps_grid (pm_step_gen f cf st acts)) (ps_rew (pm_step_gen f cf st acts)) /\
+    pac_cell cf g4 = Some p' /\
+    agent (ps_grid (pm_step_gen f cf st acts)) (pc_pac cf) = agent g4 (pc_pac cf).
+Proof. exact pm_step_counted_last_loop_frame. Qed.
+Print Assumptions C03_pacman_counted_last_loop_frame.
+
+Theorem C03_pacman_overlap_loop_vitals : forall cf eat cands g r g' r',
+  (overlap_loop cf eat cands g r = LDead g' r' -> pac_active cf g' = false) /\
+  (overlap_loop cf eat cands g r = LGo g' r' -> agent g' (pc_pac cf) = agent g (pc_pac cf)).
+Proof.
+  intros cf eat cands g r g' r'. split;
+    [apply overlap_loop_dead_inactive | apply overlap_loop_go_pacman].
+Qed.
+Print Assumptions C03_pacman_overlap_loop_vitals.
+
 (* the tree as found (findings/C03-pacman-blocked-teleport): the teleport ignores the result of Grid.place.
    A wall on the tunnel end (9,18), pacman walks from (9,1) to (9,0): removed from the grid, placed nowhere,
    still active (clause 303 of the invariant test on the snapshot), the next step raises; the repaired step
